@@ -13,7 +13,8 @@ TRUSTED = [
     "its 'cacheable stages do not write self' flag is a syntactic check",
     "Model/PipelineCache.v is a hand model of Pipeline::exec / compile_internal; tied on every run by driving the real "
     "Pipeline with synthetic instrumented stages (which stages run, result class, payload, heap objects)",
-    "the model treats stage outputs as values (no aliasing between an output and its clone) and the cacheable stages as "
+    "the model treats stage outputs as values (no aliasing between an output and its clone; the one aliasing clone, Function's shared "
+    "bytecode buffer, no longer reaches the cache because Compiled outputs are not cached) and the cacheable stages as "
     "deterministic functions of their input; the 64-bit DefaultHasher key is assumed injective on the sources used",
     "Model/GlobalLayoutOrder.v models only the HashMap walk in build_global_layout and the index pre-pass of compile_typed; "
     "every other table the compiler iterates is covered only by the multi-process byte comparison (exploration)",
@@ -63,8 +64,9 @@ def corpus_text(h, upto=None):
 
 
 def classify(r):
-    """Signature(s) of a divergent request -- decidable from the four runs and the structural
-    diff of the compiled units; returns [] when the request agrees everywhere."""
+    """Descriptive signature(s) of a divergent request (which twin disagrees, what differs in the
+    compiled unit); returns [] when the request agrees everywhere.  No divergence is attributed to
+    a known finding any more: KF-C16-1/2 are repaired (status fixed), so every signature is a VIOLATION."""
     same = lambda a, b: r[a] == r[b] and r["out_" + a] == r["out_" + b]
     if same("cached", "fresh") and same("nocache", "fresh"):
         return []
@@ -159,8 +161,9 @@ def run(ctx):
         "the models of Pipeline::exec/compile_internal and build_global_layout are the code: contract ties on every run",
     ]
     ctx.cov["refuted_lemmas"] = [
-        "cache_drops_heap_refuted / cache_drops_heap_compile_refuted: with the code's clone (Heap::clone() = Heap::new()) one pipeline "
-        "differs from fresh pipelines on [exec s; exec s] and [compile s; compile s] for a source owning heap constants",
+        "old_protocol_dropped_heap_witness (about the protocol BEFORE the repair ea6c4c5 only): caching Compiled outputs through the code's "
+        "clone made [exec s; exec s] and [compile s; compile s] differ from fresh pipelines; the repaired protocol never caches them "
+        "(cache_transparent_for_the_codes_clone, cache_keeps_heap)",
         "layout_needs_distinct_indices: without distinct indices the HashMap order is visible (hypothesis of layout_permutation_invariant is needed)",
     ]
     if getattr(ctx, "replay_file", None):
@@ -297,8 +300,8 @@ def run(ctx):
         "hist: seeded histories (2-8 requests, execute/compile) over pools of 1-4 generated sources (string recursion, nested "
         "functions with constants, closures, loops, typed recursion, mutable globals, call sites; 1 in 6 broken in some stage) on the "
         "standard / compilation / stdlib-enabled pipelines at -O0..-O3; each request also runs on a cache-cleared twin, a twin whose "
-        "Compiled-producing stages are uncacheable, and a fresh pipeline; value class+payload and captured output must agree. 40% of the "
-        "histories are drawn outside the two known classes (no heap constants, one request kind) and must agree completely. "
+        "Compiled-producing stages are uncacheable, and a fresh pipeline; value class+payload and captured output must agree. every request of "
+        "every history must agree (40% of the histories use sources without heap constants and one request kind only). "
         "proto: random stage lists (names incl. duplicates and 'vm' in the middle, cacheable flags, stateful counters, failing/Value/"
         "Compiled-with-k-heap-objects actions) x histories, compared with the Coq model; layout: top-level let/fn declaration lists with "
         "re-declarations; det: generated sources + imports of std modules in all three forms + 0-3 user modules + up to 32 extra globals, "
